@@ -10,6 +10,13 @@ import (
 
 func init() { corrTable["C20"] = corrC20 }
 
+func coqEsm(e pdu.ESMClass) string {
+	return fmt.Sprintf("{| e_mode := %d; e_type := %d; e_udhi := %s; e_reply := %s |}", e.MessageMode, e.MessageType, coqBool(e.UDHIndicator), coqBool(e.ReplyPath))
+}
+func coqRegdel(d pdu.RegisteredDelivery) string {
+	return fmt.Sprintf("{| r_mc := %d; r_sme := %d; r_inter := %s; r_rsv := %d |}", d.MCDeliveryReceipt, d.SMEOriginatedAcknowledgment, coqBool(d.IntermediateNotification), d.Reserved)
+}
+
 func corrC20(r *Run) {
 	r.Import("Model.Flags")
 	r.Rule = "octet codecs: all 256 octets per codec (exhaustive) + random unnormalised structs for the encoders; " +
@@ -51,12 +58,64 @@ func corrC20(r *Run) {
 			r.Fail(fmt.Sprintf("interface_version/octet=%d", b), "interface_version does not survive its JSON text form",
 				fmt.Sprintf("ifver %d", b), fmt.Sprintf("json=%s back=%d err=%v", data, v2, err), fmt.Sprintf("back=%d", b))
 		}
-		// model cases: the JSON text itself, and decode of each octet
-		r.Case(fmt.Sprintf("ifver_to_json %d", b), fmt.Sprintf("beq_bytes (ifver_to_json %d) %s", b, coqHex(data)))
+		// model cases.  The property fixes the round trip, not the text: the text form is an advisory case.
+		r.Advisory(fmt.Sprintf("ifver_to_json %d", b), fmt.Sprintf("beq_bytes (ifver_to_json %d) %s && beq_opt N.eqb (ifver_of_json %s) (Some %d)", b, coqHex(data), coqHex(data), v2))
+		// the decoders on each octet (ties esm_of_byte / regdel_of_byte outside the tables as well)
+		r.Case(fmt.Sprintf("esm_of_byte %d", b), fmt.Sprintf("beq_esm (esm_of_byte %d) %s", b, coqEsm(e)))
+		r.Case(fmt.Sprintf("regdel_of_byte %d", b), fmt.Sprintf("beq_regdel (regdel_of_byte %d) %s", b, coqRegdel(d)))
+		// ---- the same octet decoded INTO variables that already hold a value: all-ones fields, the complement octet,
+		// a random unnormalised struct, and at the end of a history of three octets on one variable
+		for k, prior := range []pdu.ESMClass{{MessageMode: 0xFF, MessageType: 0xFF, UDHIndicator: true, ReplyPath: true}, esmOf(byte(^b)),
+			{MessageMode: r.Rng.Byte(), MessageType: r.Rng.Byte(), UDHIndicator: r.Rng.Bool(), ReplyPath: r.Rng.Bool()}, esmOf(r.Rng.Byte())} {
+			x := prior
+			if k == 3 {
+				_ = x.WriteByte(r.Rng.Byte())
+				_ = x.WriteByte(r.Rng.Byte())
+				prior = x
+			}
+			_ = x.WriteByte(byte(b))
+			c2, _ := x.ReadByte()
+			r.Count(fmt.Sprintf("esmreuse/%d/%d", b, k), true, "esm_class octet into a non-zero receiver")
+			if x != e || int(c2) != b {
+				r.Fail("esm_class/reused-receiver", "ESMClass.WriteByte into a variable that already holds a value does not give the decoding of the octet",
+					fmt.Sprintf("esm %d into %+v", b, prior), fmt.Sprintf("%+v re-encoded=%d", x, c2), fmt.Sprintf("%+v re-encoded=%d", e, b))
+			}
+			if k >= 2 {
+				r.Case(fmt.Sprintf("esm_write %+v %d", prior, b), fmt.Sprintf("beq_esm (esm_write %s %d) %s", coqEsm(prior), b, coqEsm(x)))
+			}
+		}
+		for k, prior := range []pdu.RegisteredDelivery{{MCDeliveryReceipt: 0xFF, SMEOriginatedAcknowledgment: 0xFF, IntermediateNotification: true, Reserved: 0xFF}, regdelOf(byte(^b)),
+			{MCDeliveryReceipt: r.Rng.Byte(), SMEOriginatedAcknowledgment: r.Rng.Byte(), IntermediateNotification: r.Rng.Bool(), Reserved: r.Rng.Byte()}, regdelOf(r.Rng.Byte())} {
+			x := prior
+			if k == 3 {
+				_ = x.WriteByte(r.Rng.Byte())
+				_ = x.WriteByte(r.Rng.Byte())
+				prior = x
+			}
+			_ = x.WriteByte(byte(b))
+			c2, _ := x.ReadByte()
+			r.Count(fmt.Sprintf("regdelreuse/%d/%d", b, k), true, "registered_delivery octet into a non-zero receiver")
+			if x != d || int(c2) != b {
+				r.Fail("registered_delivery/reused-receiver", "RegisteredDelivery.WriteByte into a variable that already holds a value does not give the decoding of the octet",
+					fmt.Sprintf("regdel %d into %+v", b, prior), fmt.Sprintf("%+v re-encoded=%d", x, c2), fmt.Sprintf("%+v re-encoded=%d", d, b))
+			}
+			if k >= 2 {
+				r.Case(fmt.Sprintf("regdel_write %+v %d", prior, b), fmt.Sprintf("beq_regdel (regdel_write %s %d) %s", coqRegdel(prior), b, coqRegdel(x)))
+			}
+		}
+		for _, v0 := range []byte{0xFF, byte(^b), r.Rng.Byte()} {
+			x := pdu.InterfaceVersion(v0)
+			err := json.Unmarshal(data, &x)
+			r.Count(fmt.Sprintf("ifverreuse/%d/%d", b, v0), true, "interface_version JSON into a non-zero receiver")
+			if err != nil || x != v {
+				r.Fail("interface_version/reused-receiver", "InterfaceVersion.UnmarshalJSON into a variable that already holds a value does not give the version back",
+					fmt.Sprintf("ifver %d into %d", b, v0), fmt.Sprintf("json=%s back=%d err=%v", data, x, err), fmt.Sprintf("back=%d", b))
+			}
+		}
 	}
 	r.Sample(map[string]interface{}{"codec": "esm_class", "octet": 0xC3, "decoded": "mode=3 type=0 udhi reply"})
 	// --- encoders on arbitrary (unnormalised) struct contents: model must mask the same way
-	n := r.N(600, 6000)
+	n := r.N(300, 6000)
 	for i := 0; i < n; i++ {
 		e := pdu.ESMClass{MessageMode: r.Rng.Byte(), MessageType: r.Rng.Byte(), UDHIndicator: r.Rng.Bool(), ReplyPath: r.Rng.Bool()}
 		c, _ := e.ReadByte()
